@@ -10,18 +10,23 @@ KNOWN_FILE = os.path.join(VERIF, "known_findings.txt")
 
 
 def load_known():
-    """known: property=<id> <key words...>   /  fixed: property=<id> <commit> <text> (suppresses nothing)"""
+    """known: property=<id> key=<rule function construct> :: <what fails>   -> KNOWN-FINDING, exit 0
+       fixed: property=<id> <commit> <text>                               -> suppresses nothing
+    A known finding is identified by the exact violation key (rule, function, construct), so any
+    other violation of the same rule or property is still reported."""
     known = []
     if os.path.exists(KNOWN_FILE):
         for line in open(KNOWN_FILE):
             line = line.strip()
-            if not line or line.startswith("#"):
+            if not line.startswith("known:"):
                 continue
-            if line.startswith("known:"):
-                rest = line[len("known:"):].strip()
-                parts = rest.split(None, 1)
-                pid = parts[0].split("=", 1)[1]
-                known.append((pid, parts[1].strip() if len(parts) > 1 else ""))
+            rest = line[len("known:"):].strip()
+            pid = rest.split()[0].split("=", 1)[1]
+            body = rest.split(None, 1)[1] if len(rest.split(None, 1)) > 1 else ""
+            if not body.startswith("key=") or "::" not in body:
+                continue
+            key, text = body[4:].split("::", 1)
+            known.append((pid, key.strip(), text.strip()))
     return known
 
 
@@ -98,11 +103,9 @@ class Check:
         new_v = []
         for v in self.violations:
             hit = None
-            for _pid, text in known:
-                # a known finding is identified by rule + function (+construct) words all present in key
-                words = text.split()
-                if words and all(w in v["key"].split() for w in words[:2]):
-                    hit = text
+            for _pid, key, text in known:
+                if key == v["key"]:
+                    hit = "%s :: %s" % (key, text)
                     break
             if hit:
                 self.known_hits.append((v, hit))
